@@ -176,6 +176,8 @@ def cf2d_geom(draw, shoc_simple=False, max_n=5, holes=True, bounds=None, decoy=F
         "holes": hole_cells,
         "twisted": twisted,
         "bounds": with_bounds,
+        "bad_bounds": (None if with_bounds or bounds is not None else
+                       draw(st.sampled_from([None, None, None, "xy4", "xy4", "4yx", "yx3"]))),
         "names": names,
         "coords_as": draw(st.sampled_from(["coord", "var"])),
         "bounds_as": draw(st.sampled_from(["var", "var", "coord"])),
@@ -507,9 +509,50 @@ def geometry(draw, conv, **kw):
 
 
 @st.composite
+def dimension_coordinates(draw, spec):
+    """Integer dimension coordinates for some grid dimensions (a variable with the dimension's
+    own name): one-based, shifted, reversed or shuffled labels, so that selecting by label and
+    selecting by position are different things."""
+    out = {}
+    sizes = specs.dim_sizes(spec)
+    taken = _variable_names(spec)
+    for dims in specs.grid_dims(spec).values():
+        for dim in dims:
+            if dim in taken or dim in out or not draw(st.booleans()):
+                continue
+            n = sizes[dim]
+            style = draw(st.sampled_from(["one_based", "shifted", "reversed", "shuffled"]))
+            if style == "one_based":
+                labels = list(range(1, n + 1))
+            elif style == "shifted":
+                labels = list(range(10, 10 + n))
+            elif style == "reversed":
+                labels = list(range(n - 1, -1, -1))
+            else:
+                labels = list(draw(st.permutations(range(n))))
+            out[dim] = labels
+    return out
+
+
+def _variable_names(spec):
+    """Names already used by variables of the geometry (a dimension coordinate of that name
+    would replace them)."""
+    names = set()
+    g = spec["geom"]
+    for key, value in (g.get("names") or {}).items():
+        if key not in ("y", "x"):
+            names.add(value)
+    enc = g.get("enc") or {}
+    for value in (enc.get("names") or {}).values():
+        names.add(value)
+    names.update(v["name"] for v in spec.get("vars") or [])
+    return names
+
+
+@st.composite
 def dataset_spec(draw, convs=ALL_CONVS, max_vars=3, min_vars=1, max_extra=2,
                  modes=("raw", "raw", "decoded"), geom_kwargs=None, var_kwargs=None,
-                 with_vars=True):
+                 with_vars=True, dim_coords=True):
     conv = draw(st.sampled_from(list(convs)))
     spec = {"conv": conv, "geom": draw(geometry(conv, **(geom_kwargs or {})))}
     spec["extra"] = draw(extra_dims(max_extra)) if with_vars else {}
@@ -523,6 +566,8 @@ def dataset_spec(draw, convs=ALL_CONVS, max_vars=3, min_vars=1, max_extra=2,
         spec["extra"]["tstep"] = spec["extra"].pop("time")
     spec["vars"] = draw(variables(spec, max_vars=max_vars, min_vars=min_vars,
                                   **(var_kwargs or {}))) if with_vars else []
+    if dim_coords and draw(st.integers(0, 3)) == 0:
+        spec["dim_coords"] = draw(dimension_coordinates(spec))
     spec["mode"] = draw(st.sampled_from(list(modes)))
     spec["bind"] = draw(st.sampled_from(["auto", "auto", "explicit"]))
     spec["warmup"] = draw(st.lists(st.sampled_from(WARMUP_PROPERTIES), max_size=4, unique=True))
